@@ -294,6 +294,9 @@ def check(ctx):
                 ex = T.strip_wrappers(T.expr(body, op)) if op['k'] in ('copy', 'move') else ('const',)
                 some = some and ex[0] == 'agg' and ex[1].endswith('Option::Some')
             ctx.check(some, 'C10.carry/with_parameters/parameters-some', 'T-CARRY', body.name, '`parameters` of the result is not Some(given)', body.site())
+            # the recorded values are the supplied ones, all of them: moved / cloned / converted there and back, never filtered
+            whole = bool(src.get('parameters')) and all(pe.same_entries(ctx, body, op, 2) for op in src.get('parameters', []))
+            ctx.check(whole, 'C10.carry/with_parameters/parameters-complete', 'T-CARRY', body.name, '`parameters` of the result is not the complete `parameters` argument (entries are dropped, filtered or rebuilt from something else)', body.site())
             fields = ctx.F.adt_fields(INST) or []
             ctx.check(set(fields) == set(FIELDS + ['parameters']), 'C10.carry/field-list', 'T-COVER', body.name, 'v1::Instance field list changed: %s' % sorted(set(fields) ^ set(FIELDS + ['parameters'])), body.site())
     # ---- From<Instance> for ParametricInstance
@@ -311,7 +314,7 @@ def check(ctx):
                     ctx.check(not others, 'C10.from/%s/only' % f, 'T-CARRY', fb.name, 'field `%s` also depends on %s' % (f, others), fb.site())
             carry_sources(ctx, 'C10.from/parameters', fb, src.get('parameters', []), 'parameters', not_fields=[(INST, 'parameters')])
     pe.unmark(ctx)
-    ctx.floor('C10.guard', 1); ctx.floor('C10.apply', 13); ctx.floor('C10.carry', 11); ctx.floor('C10.from', 17)
+    ctx.floor('C10.guard', 1); ctx.floor('C10.apply', 13); ctx.floor('C10.carry', 12); ctx.floor('C10.from', 17)
 
 
 def carry_sources(ctx, rule, body, ops, what, need_fields=(), not_fields=(), need_params=()):
